@@ -127,12 +127,111 @@ def run(ctx, mode='C02'):
         ctx.violation('instance of theorem C02_sound fails in the model', {'kind': 'theorem-instance', 'tree': trees[i][0], 'decisions': eff},
                       found_input=False)
     if mode == 'C02':
+        part_x(ctx)
         for f in ctx.open_findings():
             if f['id'] == 'K3' and known_k3(ctx):
                 ctx.known_finding('K3', 'return inside a try body with a finally clause: the finally read obtains x = 1, supp lists only x = 2 and reports x = 1 unused (Coq: C02_unrestricted_refuted)')
     if not proof_ok:
         ctx.violation('proof obligations of Props/%s.v not discharged: %s' % (mode, ctx.notes),
                       {'kind': 'proof', 'theorem': 'Props/%s.v' % mode, 'build_error': cov.get('build_error')}, found_input=False)
+
+
+def corpus_x():
+    A = lambda d, x, reads=(): ('assign', list(reads), [(d, x)], 'plain')
+    R = lambda r, x: ('expr', [(r, x)])
+    IF = lambda body: ('if', [], body, [('pass',)], [])
+    return [
+        # F62: a binding before a conditional break, overwritten behind it, is read behind the loop
+        [A(1, 'x'), ('for', [], [(2, 'y')], [A(3, 'x'), IF([('break',)]), A(4, 'x')], [('pass',)]), R(10, 'x')],
+        # ... before a conditional continue, read at the top of the next trip
+        [A(1, 'x'), ('while', [], [R(10, 'x'), A(2, 'x'), IF([('continue',)]), A(3, 'x')], [('pass',)], [])],
+        # F62b: the exit sits in a with block, bindings follow it in the loop body
+        [A(1, 'a'), ('while', [(10, 'a')], [('with', [], [(2, 'a')], [('continue',)]), A(3, 'a')], [('pass',)], [])],
+        # break skips the else clause; a break in the else clause belongs to the outer loop
+        [A(1, 'x'), ('for', [], [(2, 'y')], [('for', [], [(3, 'z')], [A(4, 'x'), IF([('break',)])], [A(5, 'x'), IF([('break',)]), A(6, 'x')])], [R(10, 'x')]), R(11, 'x')],
+        # continue inside try/except (no finally), break inside a handler
+        [A(1, 'x'), ('while', [], [('try', [A(2, 'x'), IF([('continue',)]), A(3, 'x')], [([], None, [A(4, 'x'), IF([('break',)]), A(5, 'x')])], [('pass',)], [('pass',)], True, True), R(10, 'x')], [R(11, 'x')], []), R(12, 'x')],
+        # return in a loop body, loop-carried binding behind it
+        [A(1, 'x'), ('for', [(10, 'x')], [(2, 'y')], [IF([('return',)]), A(3, 'x')], [('pass',)]), R(11, 'x')],
+    ]
+
+
+def part_x(ctx):
+    """C02 with loop exits (return / break / continue; fragment okx of Model/ReachX.v): theorem C02X_sound.
+    (I) Model/ReachX.v vs supp, (R) Model/SemXS.v vs CPython, direct site-level evaluation of every execution."""
+    cov = ctx.coverage
+    nprog = ctx.pick(100, 1000)
+    cap = ctx.pick(40, 160)
+    trees = [(t, 'func') for t in corpus_x()]
+    for i in range(nprog):
+        scope = ctx.rng.choice(['func'] * 8 + ['module'] * 2)
+        g = pygen.Gen(ctx.rng, allow_return=(scope == 'func'), exits=True, loop_exits_only=True, full_raise=False,
+                      max_stmts=ctx.rng.choice([6, 8, 12]), names=ctx.rng.choice([None, pygen.POOL[:2], pygen.POOL[:2], pygen.POOL[:3]]))
+        trees.append((g.program(prologue=ctx.rng.choice([0.7, 0.4])), scope))
+    frag_bad = set(ctx.run_cases(rc.IMPORTS, rc.CHECK_PRELUDE, 'frag_okx', [pygen.body_coq(b) for b, _ in trees], case_type='cmd', shard=300))
+    cov['X_programs'] = len(trees)
+    cov['X_outside_fragment'] = len(frag_bad)
+    impl_terms, impl_meta, ref_terms, ref_meta, direct_bad = [], [], [], [], []
+    obs_of = {}
+    for idx, (body, scope) in enumerate(trees):
+        if idx in frag_bad:
+            continue
+        try:
+            src, reads, binds, obs = rc.analyse_program(ctx, body, scope)
+        except Exception as e:
+            ctx.violation('supp raised %s: %s while analysing a generated program' % (type(e).__name__, e),
+                          {'kind': 'crash', 'source': pygen.render_plain(body, scope)[0]})
+            continue
+        obs_of[idx] = (src, obs)
+        if scope == 'func':
+            impl_terms.append(rc.impl_case_term(body, obs))
+            impl_meta.append(idx)
+        runs, exhaustive = rc.enumerate_decisions(rc.Oracle(pygen.render_instrumented(body, scope), scope, cont=True), cap)
+        exits = sum(repr(body).count(k) for k in ("'break'", "'continue'", "'return'"))
+        ctx.histogram('X_exit_statements', min(exits, 6))
+        for eff, log, err in runs:
+            if err:
+                direct_bad.append((idx, 'instrumented program raised %s' % err, eff))
+                continue
+            multi = any(v is not None and isinstance(obs['seen'].get(r), list) and len(obs['seen'][r]) > 1 for r, v in log)
+            ctx.count(('X', src, tuple(eff)), nontrivial=multi and exits > 0)
+            ref_terms.append(rc.ref_case_term(body, eff, log))
+            ref_meta.append((idx, eff))
+            for b in rc.direct_c02(obs, log):
+                direct_bad.append((idx, b[0], eff))
+    cov['X_executions'] = len(ref_terms)
+    reported = set()
+    for idx, what, eff in direct_bad:
+        if (idx, what) in reported or len(reported) > 8:
+            continue
+        reported.add((idx, what))
+        body, scope = trees[idx]
+        ctx.violation(what + ' (program with loop exits)', {'kind': 'direct', 'scope': scope, 'tree': body, 'source': obs_of[idx][0],
+                                                             'layout_seed': obs_of[idx][1].get('layout_seed'), 'decisions': eff})
+    ty = 'cmd * list (N * list alt) * list N * list N'
+    bad_i = ctx.run_cases(rc.IMPORTS, rc.CHECK_PRELUDE, 'check_implx', impl_terms, case_type=ty, shard=150)
+    bad_r = ctx.run_cases(rc.IMPORTS, rc.CHECK_PRELUDE, 'check_refXs', ref_terms, shard=400)
+    bad_s = ctx.run_cases(rc.IMPORTS, rc.CHECK_PRELUDE, 'check_soundx_instance', ref_terms, shard=400)
+    cov['X_impl_cases'] = len(impl_terms)
+    cov['X_impl_disagreements'] = len(bad_i)
+    cov['X_ref_disagreements'] = len(bad_r)
+    cov['X_theorem_instance_failures'] = len(bad_s)
+    if bad_i and not direct_bad:
+        idx = impl_meta[bad_i[0]]
+        ctx.violation('(I) correspondence Model/ReachX.v vs supp no longer checks on %d programs with loop exits; '
+                      'theorem C02X_sound is about a model that is not the code' % len(bad_i),
+                      {'kind': 'correspondence-impl', 'theorem': 'C02X_sound (model tie)', 'tree': trees[idx][0], 'scope': 'func',
+                       'source': obs_of[idx][0], 'supp_alternatives': {str(k): v for k, v in obs_of[idx][1]['seen'].items()},
+                       'supp_unused': sorted(obs_of[idx][1]['unused'])}, found_input=False)
+    if bad_r:
+        idx, eff = ref_meta[bad_r[0]]
+        ctx.violation('(R) correspondence Model/SemXS.v vs CPython no longer checks on %d executions' % len(bad_r),
+                      {'kind': 'correspondence-ref', 'theorem': 'runXs semantics', 'tree': trees[idx][0], 'scope': trees[idx][1], 'decisions': eff},
+                      found_input=False)
+    if bad_s and not direct_bad:
+        idx, eff = ref_meta[bad_s[0]]
+        ctx.violation('instance of theorem C02X_sound fails in the model', {'kind': 'theorem-instance', 'tree': trees[idx][0], 'decisions': eff},
+                      found_input=False)
 
 
 K3_TREE = [('try', [('assign', [], [(1, 'x')], 'plain'), ('if', [], [('return',)], [('pass',)]), ('assign', [], [(2, 'x')], 'plain')],
